@@ -1,10 +1,13 @@
 package props
 
 import (
+	"bufio"
 	"bytes"
 	"errors"
 	"fmt"
 	"io"
+	"net"
+	"os"
 	"runtime"
 	"sync"
 	"sync/atomic"
@@ -89,6 +92,21 @@ var (
 	c01VeteranMu  sync.Mutex      //nolint:gochecknoglobals
 	c01VeteranIdx int             //nolint:gochecknoglobals
 )
+
+// queueReader delivers one queued datagram per Read (a packet socket).
+type queueReader struct{ q [][]byte }
+
+func (q *queueReader) push(b []byte) { q.q = append(q.q, b) }
+
+func (q *queueReader) Read(p []byte) (int, error) {
+	if len(q.q) == 0 {
+		return 0, io.EOF
+	}
+	n := copy(p, q.q[0])
+	q.q = q.q[1:]
+
+	return n, nil
+}
 
 // c01PrepareVeterans builds the pool of veteran receivers (called once per process, before the sections).
 func c01PrepareVeterans() {
@@ -292,7 +310,10 @@ var (
 
 func c01(c *core.Ctx) {
 	selfCheckOracles()
-	c01PrepareVeterans()
+	c.Setup("veteran-receivers", c01PrepareVeterans)
+	if len(c01Veterans) == 0 {
+		return // reported by Setup
+	}
 	entries := c01Entries()
 	n := c.N(60000, 3000000)
 	if c.Config != "rel" {
@@ -481,6 +502,94 @@ func c01(c *core.Ctx) {
 		}
 		c.Count("retained_values_checked", int64(len(keep)))
 		c.Distinct(uint64(i) | 7<<50)
+	})
+	// ReadFrom is handed readers of the kinds programs really use (a bufio.Reader around a socket, a bytes.Buffer, a
+	// net.Pipe end, an os pipe): what the message exposes afterwards is its own - it stays what it was when the same
+	// reader delivers the next datagrams to other messages and the sender reuses its buffers.
+	c.Section("reader-kinds", c.N(120, 6000), func(i int64, r *gen.Rand) {
+		var (
+			rd      io.Reader
+			feed    func([]byte)
+			closeFn func()
+		)
+		kind := int(i % 7)
+		switch kind {
+		case 0, 1, 2, 3:
+			src := &queueReader{}
+			rd, feed = bufio.NewReaderSize(src, []int{16, 600, 4096, 65536}[kind]), src.push
+		case 4:
+			buf := new(bytes.Buffer)
+			rd, feed = buf, func(b []byte) { buf.Write(b) }
+		case 5:
+			a, b := net.Pipe()
+			rd, feed, closeFn = a, func(d []byte) { go func(d []byte) { _, _ = b.Write(d) }(append([]byte(nil), d...)) }, func() { _ = a.Close(); _ = b.Close() }
+		default:
+			pr, pw, err := os.Pipe()
+			if err != nil {
+				c.Inconclusive(1)
+
+				return
+			}
+			rd, feed, closeFn = pr, func(d []byte) { _, _ = pw.Write(d) }, func() { _ = pr.Close(); _ = pw.Close() }
+		}
+		if closeFn != nil {
+			defer closeFn()
+		}
+		type held struct {
+			m    *stun.Message
+			wire []byte
+			raw  []byte
+			vals [][]byte
+		}
+		var all []held
+		for k := 0; k < 4; k++ {
+			spec := r.Spec(4, 40)
+			spec.Attrs = append(spec.Attrs, ref.Attr{Type: 0x0006, Value: r.Bytes(8 + r.Intn(40))})
+			wire := spec.Wire()
+			sent := append([]byte(nil), wire...)
+			feed(sent)
+			m := &stun.Message{Raw: make([]byte, 0, 1024)}
+			var err error
+			if p, stack := safely(func() { _, err = m.ReadFrom(rd) }); p != nil {
+				reportPanic(c, "ReadFrom", p, stack, map[string]interface{}{"reader": fmt.Sprintf("%T", rd), "input_hex": core.Hex(wire)})
+
+				return
+			}
+			for j := range sent {
+				sent[j] = 0xC3 // the sender's buffer is the sender's
+			}
+			rm, _ := ref.Parse(wire)
+			if err != nil || rm == nil {
+				c.Violate("reader-kinds", "reader-kinds:verdict", map[string]interface{}{"reader": fmt.Sprintf("%T", rd), "input_hex": core.Hex(wire), "err": fmt.Sprint(err)})
+
+				return
+			}
+			h := held{m: m, wire: wire, raw: append([]byte(nil), m.Raw...)}
+			for _, a := range m.Attributes {
+				h.vals = append(h.vals, append([]byte(nil), a.Value...))
+			}
+			all = append(all, h)
+			c.Eval(1)
+			for n, o := range all { // every message read so far, the new one included
+				orm, _ := ref.Parse(o.wire)
+				d := diffRef(o.m, orm, o.wire)
+				if d == "" && !bytes.Equal(o.m.Raw, o.raw) {
+					d = "Raw changed"
+				}
+				for q := range o.vals {
+					if d == "" && (q >= len(o.m.Attributes) || !bytes.Equal(o.m.Attributes[q].Value, o.vals[q])) {
+						d = fmt.Sprintf("value of attribute %d changed", q)
+					}
+				}
+				if d != "" {
+					c.Violate("reader-kinds", "reader-kinds:bystander", map[string]interface{}{"reader": fmt.Sprintf("%T", rd), "message_read_as_number": n, "after_reading_number": k,
+						"problem": "a message obtained with ReadFrom no longer is what was read once the same reader delivered later datagrams to other messages", "diff": d})
+
+					return
+				}
+			}
+		}
+		c.Count("reader_kinds."+fmt.Sprintf("%T", rd), 1)
 	})
 	// several goroutines decoding independent hostile inputs at the same time (and formatting the errors they get): a
 	// decoder has no business with shared state; a crash or a race report ends the child process / the race build
